@@ -1,13 +1,14 @@
 SPECIFICATION Spec
-CONSTANTS Coef <- C2
- Pairs <- P2
- SumPairs <- SP1
- Bnd <- B1
- MaxD = 2
- MaxSteps = 2
- SubA <- A2
- SubB <- S1
+CONSTANTS Coef <- C3
+ Pairs <- P4
+ SumPairs <- SP3
+ Bnd <- B2
+ MaxD = 3
+ MaxSteps = 3
+ SubA <- A3
+ SubB <- S2
 INVARIANT SameValueInv
+INVARIANT SameValueOp
 INVARIANT TwoEvaluators
 INVARIANT SimplifyIdempotent
 POSTCONDITION Emit
